@@ -442,10 +442,21 @@ class Facts:
         return b
 
     def all_calls(self, noise=False):
-        for b in self.bodies.values():
-            for c in b.calls:
-                if noise or not c.noise:
-                    yield c
+        if getattr(self, "_all_calls", None) is None:
+            self._all_calls = [c for b in self.bodies.values() for c in b.calls]
+        for c in self._all_calls:
+            if noise or not c.noise:
+                yield c
+
+    def callers_of(self, target):
+        """non-noise calls whose resolved (or declared) callee is `target`"""
+        idx = getattr(self, "_callers_idx", None)
+        if idx is None:
+            idx = defaultdict(list)
+            for c in self.all_calls():
+                idx[c.t.get("r") or c.f].append(c)
+            self._callers_idx = idx
+        return idx.get(target, [])
 
     def const_value(self, k):
         """integer value of a const operand dict (resolving named constants)"""
@@ -472,14 +483,22 @@ class Facts:
 
 
 def load(facts_dir):
+    import gc
     pk = os.path.join(facts_dir, "facts.pickle")
     if os.path.exists(pk):
         try:
+            gc.disable()
             with open(pk, "rb") as fh:
                 return pickle.load(fh)
         except Exception:
             pass
-    f = Facts(facts_dir)
+        finally:
+            gc.enable()
+    gc.disable()
+    try:
+        f = Facts(facts_dir)
+    finally:
+        gc.enable()
     try:
         tmp = pk + ".%d" % os.getpid()
         with open(tmp, "wb") as fh:
